@@ -835,7 +835,7 @@ esl_dst_CAverageId(char **as, int N, int max_comparisons, double *opt_avgid)
       for (i = 0; i < N; i++)
 	for (j = i+1; j < N; j++)
 	  {
-	    if ((status = esl_dst_CPairId(as[i], as[j], &id, NULL, NULL)) != eslOK) return status;
+	    if ((status = esl_dst_CPairId(as[i], as[j], &id, NULL, NULL)) != eslOK) goto ERROR;
 	    avgid += id;
 	  }
       avgid /= (double) (N * (N-1) / 2);
@@ -847,7 +847,7 @@ esl_dst_CAverageId(char **as, int N, int max_comparisons, double *opt_avgid)
       for (k = 0; k < max_comparisons; k++)
 	{
 	  do { i = esl_rnd_Roll(rng, N); j = esl_rnd_Roll(rng, N); } while (j == i); // make sure j != i 
-	  if ((status = esl_dst_CPairId(as[i], as[j], &id, NULL, NULL)) != eslOK) return status;
+	  if ((status = esl_dst_CPairId(as[i], as[j], &id, NULL, NULL)) != eslOK) goto ERROR;
 	  avgid += id;
 	}
       avgid /= (double) max_comparisons;
@@ -911,7 +911,7 @@ esl_dst_CAverageMatch(char **as, int N, int max_comparisons, double *opt_avgpm)
       for (i = 0; i < N; i++)
 	for (j = i+1; j < N; j++)
 	  {
-	    if ((status = esl_dst_CPairMatch(as[i], as[j], &pmatch, NULL, NULL)) != eslOK) return status;
+	    if ((status = esl_dst_CPairMatch(as[i], as[j], &pmatch, NULL, NULL)) != eslOK) goto ERROR;
 	    avgpm += pmatch;
 	  }
       avgpm /= (double) (N * (N-1) / 2);
@@ -923,7 +923,7 @@ esl_dst_CAverageMatch(char **as, int N, int max_comparisons, double *opt_avgpm)
       for (k = 0; k < max_comparisons; k++)
 	{
 	  do { i = esl_rnd_Roll(rng, N); j = esl_rnd_Roll(rng, N); } while (j == i);    // make sure j != i 
-	  if ((status = esl_dst_CPairMatch(as[i], as[j], &pmatch, NULL, NULL)) != eslOK) return status;
+	  if ((status = esl_dst_CPairMatch(as[i], as[j], &pmatch, NULL, NULL)) != eslOK) goto ERROR;
 	  avgpm += pmatch;
 	}
       avgpm /= (double) max_comparisons;
@@ -985,7 +985,7 @@ esl_dst_XAverageId(const ESL_ALPHABET *abc, ESL_DSQ **ax, int N, int max_compari
       for (i = 0; i < N; i++)
 	for (j = i+1; j < N; j++)
 	  {
-	    if ((status = esl_dst_XPairId(abc, ax[i], ax[j], &id, NULL, NULL)) != eslOK) return status;
+	    if ((status = esl_dst_XPairId(abc, ax[i], ax[j], &id, NULL, NULL)) != eslOK) goto ERROR;
 	    avgid += id;
 	  }
       avgid /= (double) (N * (N-1) / 2);
@@ -997,7 +997,7 @@ esl_dst_XAverageId(const ESL_ALPHABET *abc, ESL_DSQ **ax, int N, int max_compari
       for (k = 0; k < max_comparisons; k++)
 	{
 	  do { i = esl_rnd_Roll(rng, N); j = esl_rnd_Roll(rng, N); } while (j == i);    // make sure j != i
-	  if ((status = esl_dst_XPairId(abc, ax[i], ax[j], &id, NULL, NULL)) != eslOK) return status;
+	  if ((status = esl_dst_XPairId(abc, ax[i], ax[j], &id, NULL, NULL)) != eslOK) goto ERROR;
 	  avgid += id;
 	}
       avgid /= (double) max_comparisons;
@@ -1060,7 +1060,7 @@ esl_dst_XAverageMatch(const ESL_ALPHABET *abc, ESL_DSQ **ax, int N, int max_comp
       for (i = 0; i < N; i++)
 	for (j = i+1; j < N; j++)
 	  {
-	    if ((status = esl_dst_XPairMatch(abc, ax[i], ax[j], &pm, NULL, NULL)) != eslOK) return status;
+	    if ((status = esl_dst_XPairMatch(abc, ax[i], ax[j], &pm, NULL, NULL)) != eslOK) goto ERROR;
 	    avgpm += pm;
 	  }
       avgpm /= (double) (N * (N-1) / 2);
@@ -1072,7 +1072,7 @@ esl_dst_XAverageMatch(const ESL_ALPHABET *abc, ESL_DSQ **ax, int N, int max_comp
       for (k = 0; k < max_comparisons; k++)
 	{
 	  do { i = esl_rnd_Roll(rng, N); j = esl_rnd_Roll(rng, N); } while (j == i);    // make sure j != i 
-	  if ((status = esl_dst_XPairMatch(abc, ax[i], ax[j], &pm, NULL, NULL)) != eslOK) return status;
+	  if ((status = esl_dst_XPairMatch(abc, ax[i], ax[j], &pm, NULL, NULL)) != eslOK) goto ERROR;
 	  avgpm += pm;
 	}
       avgpm /= (double) max_comparisons;
